@@ -216,6 +216,9 @@ service("BodyService", [
     ep("bodyOptAliasSmall", "POST", "/b/optAliasSmall", [arg("body", ref("OptStrAlias"), "body")], tags=["server-limit-request-size: 16b"]),
     ep("bodyKb", "POST", "/b/kb", [arg("body", ref("Node"), "body")], tags=["server-limit-request-size: 1 KB"]),
     ep("bodyHundred", "POST", "/b/hundred", [arg("body", lst(STRING), "body")], returns=INTEGER, tags=["server-limit-request-size: 100"]),
+    # the limit tag among other tags, sorting before and after it
+    ep("bodyTaggedBefore", "POST", "/b/taggedBefore", [arg("body", STRING, "body")], tags=["incubating", "server-limit-request-size: 24b"]),
+    ep("bodyTaggedAfter", "POST", "/b/taggedAfter", [arg("body", opt(STRING), "body")], tags=["server-limit-request-size: 24b", "zz-team-owner", "Audited"]),
     ep("bodyWithParams", "POST", "/b/with/{p}", [
         arg("p", STRING, "path"), arg("q", lst(INTEGER), "query"), arg("h", opt(STRING), "header", pid="X-H"),
         arg("body", ref("Node"), "body")], returns=lst(STRING), auth="header"),
